@@ -13,7 +13,7 @@ pub const DEF: PropDef = PropDef {
     id: "C06",
     jobs,
     required,
-    rule: "one case = one frequency profile (symbol -> count) realised in 1..3 raw source containers, HuffmanContainer::merge_regions over them, and a sequence of items pushed into the result. Code lengths are measured as the bit width of the index returned for a one-symbol item; then: every length >= 1, Kraft sum <= 1, sum(count*length) equals the optimal prefix-code cost computed by an independent reference; every pushed item occupies exactly the sum of its symbols' code lengths in bits (index end - start); the item, its predecessor, the first item and a random earlier item are decoded (bounded iteration, into_owned) after every push and all items at the end; a symbol outside the statistics must be refused by a panic at push; default and cleared containers round-trip arbitrary symbols; Push<read item> from raw and encoded containers. Bounded-exhaustive: all profiles over 1..K symbols with counts from {1,2,3,5,8}, each with all items of length <= 3 (thorough: 4) and all pairs of items of length <= 2. Special profiles: 2^k and 2^k+1 equal counts, Fibonacci counts over 12..22 symbols (codes up to 21 bits), 257..1000 equiprobable u16 symbols, three generations of merge_regions. Non-trivial = at least one encoded item of >= 2 symbols decoded after a later push; distinct = distinct (profile, item sequence).",
+    rule: "one case = one frequency profile (symbol -> count) realised in 1..3 raw source containers, HuffmanContainer::merge_regions over them, and a sequence of items pushed into the result. Code lengths are measured as the bit width of the index returned for a one-symbol item; then: every length >= 1, Kraft sum <= 1, sum(count*length) equals the optimal prefix-code cost computed by an independent reference; every pushed item occupies exactly the sum of its symbols' code lengths in bits (index end - start); the item, its predecessor, the first item and a random earlier item are decoded (bounded iteration, into_owned) after every push and all items at the end; a symbol outside the statistics must be refused by a panic at push; default and cleared containers round-trip arbitrary symbols; Push<read item> from raw and encoded containers, after which each receiver is merged on its own and the resulting code must be optimal for the symbol counts of everything pushed into it. Bounded-exhaustive: all profiles over 1..K symbols with counts from {1,2,3,5,8}, each with all items of length <= 3 (thorough: 4) and all pairs of items of length <= 2. Special profiles: 2^k and 2^k+1 equal counts, Fibonacci counts over 12..22 symbols (codes up to 21 bits), 257..1000 equiprobable u16 symbols, three generations of merge_regions. Non-trivial = at least one encoded item of >= 2 symbols decoded after a later push; distinct = distinct (profile, item sequence).",
     assumptions: &[
         "HuffmanContainer::reserve_regions and ::heap_size are todo!() in the crate and are not called",
         "the state after a refused push is unspecified; nothing is read from the container afterwards",
@@ -76,6 +76,7 @@ fn required(plan: &Plan) -> Vec<String> {
         "push-read-item:raw->encoded",
         "push-read-item:encoded->encoded",
         "push-read-item:encoded->raw",
+        "push-read-item:next-generation",
         "raw:default",
         "raw:after-clear",
         "exhaustive:complete",
@@ -756,7 +757,35 @@ fn push_read_items(ctx: &mut Ctx) {
             }
         }
     }
-    let _ = a.check_all(ctx) && b.check_all(ctx);
+    if !(a.check_all(ctx) && b.check_all(ctx)) {
+        return;
+    }
+    // What read-item pushes recorded feeds the next code: each receiver, merged on its own, must
+    // yield a code that is optimal for everything pushed into it (slices and read items alike).
+    let a_items: Vec<Vec<u8>> = a.issued.iter().map(|(_, it)| it.clone()).collect();
+    let b_items: Vec<Vec<u8>> = b.issued.iter().map(|(_, it)| it.clone()).collect();
+    let raw_items: Vec<Vec<u8>> = raw_issued.iter().map(|(_, it)| it.clone()).collect();
+    for (name, h, items) in [("next(a)", &a.h, &a_items), ("next(b)", &b.h, &b_items), ("next(raw)", &raw, &raw_items)] {
+        let mut want: BTreeMap<u8, i64> = BTreeMap::new();
+        for it in items {
+            for s in it {
+                *want.entry(*s).or_insert(0) += 1;
+            }
+        }
+        ctx.log(format!("{name} = merge_regions over the receiver of read items; pushed symbol counts {:?}", want));
+        let h = match panics::catch(|| HuffmanContainer::merge_regions(std::iter::once(h))) {
+            Ok(h) => h,
+            Err(p) => {
+                ctx.fail(&format!("merge-panic:{}", p.file()), format!("{name}: {}", p.short()));
+                return;
+            }
+        };
+        let mut e = Enc { h, cursor: 0, lens: BTreeMap::new(), issued: Vec::new(), name: name.to_string() };
+        if !e.measure(ctx, &want) {
+            return;
+        }
+    }
+    ctx.cover("push-read-item:next-generation");
 }
 
 /// Before any merge and after clear the container stores raw symbols and round-trips everything.
